@@ -30,7 +30,8 @@ impl Prop for C01 {
     "trees from gen::tree(wild): depth<=3, <=4 children, 0-10 tokens of 1-4 byte UTF-8 per leaf, \
      replacement sets from a pool of <=6 cut points on char boundaries plus positions beyond the end, \
      consistent and wild (sorted, out-of-text / out-of-table) maps on SourceMapSource leaves; each tree \
-     is streamed cold, warm (same object again) and after map(), with both column settings. \
+     is streamed cold, warm (same object again) and after map(), and on a second object map() comes first and two streams follow, with both column settings; \
+     chunks are read only after the stream call returned, from memory that the allocator of the checking binary overwrites when it is freed. \
      Non-trivial: the tree contains a composite that re-slices chunks (ReplaceSource with >=1 replacement \
      over non-empty text, a CachedSource replay, or a SourceMapSource with >=2 segments on one line); \
      distinct by hash of the case JSON".into()
@@ -81,12 +82,24 @@ impl Prop for C01 {
     }
     for columns in [true, false] {
       // one object, streamed cold, then warm, then after map(): every history must reassemble
-      let obj = build(spec);
-      for round in ["cold", "warm", "after map()"] {
-        if round == "after map()" {
+      let mut obj = build(spec);
+      // a second object goes through the other order: map() on the cold object first, then two streams (only where an
+      // object keeps state between calls)
+      let stateful = spec.has_cached() || spec.any(&|s| matches!(s, Spec::Replace { .. }));
+      for round in ["cold", "warm", "after map()", "after map() on a cold object", "once more after map() on a cold object"] {
+        if round == "after map() on a cold object" {
+          if !stateful {
+            break;
+          }
+          obj = build(spec);
+        }
+        if round == "after map()" || round == "after map() on a cold object" {
           lib_or_known!(spec, "map()", obj.map(&opts(columns, false)));
         }
         let st = lib_or_known!(spec, "stream_chunks", stream(&*obj, &opts(columns, false)));
+        if let Some(e) = st.wf_errors.iter().find(|e| e.contains("outlived")) {
+          return Err(format!("columns={columns} {round}: {e}"));
+        }
         if let Some(k) = st.chunks.iter().position(|c| c.text.is_none()) {
           return Err(format!(
             "columns={columns} {round}: chunk #{k} at ({},{}) was delivered to an outside caller without text",
